@@ -37,6 +37,11 @@ type RunResult struct {
 	TapeLen  int                    `json:"tape_len"`
 	Overrun  int                    `json:"overrun,omitempty"`
 	Hung     bool                   `json:"hung,omitempty"`
+	Others   []struct {
+		Class   string `json:"class"`
+		Locator string `json:"loc"`
+		Detail  string `json:"detail"`
+	} `json:"others,omitempty"`
 }
 
 type Cmd struct {
@@ -232,6 +237,9 @@ func (a *aggregate) add(r *RunResult) {
 	}
 	if r.Class != "" {
 		a.viols = append(a.viols, violation{r.Run, r.Class, r.Locator, r.Detail, r.Tape, r.Scenario})
+		for _, o := range r.Others {
+			a.viols = append(a.viols, violation{r.Run, o.Class, o.Locator, o.Detail, r.Tape, r.Scenario})
+		}
 	}
 }
 
@@ -422,6 +430,7 @@ type shrinker struct {
 	wd             int
 	tried          int
 	cache          map[string]bool
+	known          []known
 }
 
 func (s *shrinker) same(tp []uint64) bool {
@@ -434,9 +443,58 @@ func (s *shrinker) same(tp []uint64) bool {
 	}
 	s.tried++
 	r := runTape(tp, s.wd)
-	ok := r.Class == s.class && (!stackClass(s.class) || r.Locator == s.locator)
+	ok := false
+	for _, f := range failuresOf(r) {
+		if f.Class != s.class {
+			continue
+		}
+		if f.Locator == s.locator {
+			ok = true
+			break
+		}
+		// A feature-based locator may lose features while the scenario gets
+		// simpler, but it may never turn into the locator of a known finding
+		// (that would hide a new defect behind an old one).
+		if !stackClass(s.class) && locatorSubsumes(s.locator, f.Locator) && matchKnown(s.known, f.Class, f.Locator) == nil {
+			s.locator = f.Locator
+			ok = true
+			break
+		}
+	}
 	s.cache[key] = ok
 	return ok
+}
+
+type failure struct{ Class, Locator, Detail string }
+
+func failuresOf(r *RunResult) []failure {
+	if r.Class == "" {
+		return nil
+	}
+	out := []failure{{r.Class, r.Locator, r.Detail}}
+	for _, o := range r.Others {
+		out = append(out, failure{o.Class, o.Locator, o.Detail})
+	}
+	return out
+}
+
+// locatorSubsumes: cand has the same non-feature part as cur and its feature
+// set ("features=a+b", "none" = empty) is a subset of cur's.
+func locatorSubsumes(cur, cand string) bool {
+	ci, di := strings.Index(cur, "features="), strings.Index(cand, "features=")
+	if ci < 0 || di < 0 || cur[:ci] != cand[:di] {
+		return false
+	}
+	set := map[string]bool{}
+	for _, f := range strings.Split(cur[ci+9:], "+") {
+		set[f] = true
+	}
+	for _, f := range strings.Split(cand[di+9:], "+") {
+		if f != "none" && !set[f] {
+			return false
+		}
+	}
+	return true
 }
 
 func trimZeros(tp []uint64) []uint64 {
@@ -701,6 +759,12 @@ func main() {
 	if nworkers > total {
 		nworkers = total
 	}
+	// replay files of earlier runs of this property are stale from here on
+	if old, _ := filepath.Glob(filepath.Join(verifDir, "replays", prop+"-*.json")); len(old) > 0 {
+		for _, f := range old {
+			os.Remove(f)
+		}
+	}
 	agg := &aggregate{sigs: map[uint64]bool{}, ctr: map[string]int64{}}
 	runBatch(total, nworkers, t0.Add(budget), agg)
 	batchWall := time.Since(t0)
@@ -726,57 +790,67 @@ func main() {
 	var finalOrder []string
 	maxShrinks := 10
 	exit := 0
-	for gi, k := range order {
+	// unknown groups first: the shrink budget belongs to them
+	sort.SliceStable(order, func(i, j int) bool {
+		vi, vj := groups[order[i]][0], groups[order[j]][0]
+		return matchKnown(ks, vi.Class, vi.Locator) == nil && matchKnown(ks, vj.Class, vj.Locator) != nil
+	})
+	pick := func(r *RunResult, class, locator string) (failure, bool) {
+		for _, f := range failuresOf(r) {
+			if f.Class == class && f.Locator == locator {
+				return f, true
+			}
+		}
+		return failure{}, false
+	}
+	shrinks := 0
+	for _, k := range order {
 		vs := groups[k]
 		v := vs[0]
-		if gi >= maxShrinks {
-			// too many distinct pre-minimisation groups: report the rest unminimised
-			key := v.Class + "|" + v.Locator
-			if finals[key] == nil {
-				finals[key] = &final{class: v.Class, locator: v.Locator, detail: v.Detail + " (not minimised: shrink budget exhausted)", known: matchKnown(ks, v.Class, v.Locator)}
-				finalOrder = append(finalOrder, key)
-			}
-			finals[key].count += len(vs)
-			continue
-		}
 		if len(v.Tape) == 0 {
 			v.Tape = recoverTape(v.Run)
 		}
+		if len(v.Tape) == 0 {
+			infraFail("violation in run %d (%s %s) has no recoverable tape", v.Run, v.Class, v.Locator)
+		}
+		preKnown := matchKnown(ks, v.Class, v.Locator)
 		min := v.Tape
 		tried := 0
-		var res *RunResult
-		if len(v.Tape) > 0 {
+		locator := v.Locator
+		if preKnown == nil && shrinks < maxShrinks {
+			shrinks++
 			wd := spec.WatchdogMs(tier)
 			if v.Class == "livelock" || v.Class == "deadlock" {
 				wd = spec.ShrinkWatchdogMs()
 			}
-			s := &shrinker{class: v.Class, locator: v.Locator, budget: 500, deadline: time.Now().Add(150 * time.Second), wd: wd, cache: map[string]bool{}}
+			s := &shrinker{class: v.Class, locator: v.Locator, budget: 500, deadline: time.Now().Add(150 * time.Second), wd: wd, cache: map[string]bool{}, known: ks}
 			if s.same(v.Tape) {
 				min = s.shrink(v.Tape)
+				locator = s.locator
 			} else {
 				fmt.Printf("note: run %d (%s %s) did not reproduce from its tape under the shrink settings; replaying unminimised\n", v.Run, v.Class, v.Locator)
 			}
 			tried = s.tried
-			res = runTape(min, spec.WatchdogMs("thorough"))
-		} else {
-			// process death before the tape could be reported: regenerate from (seed, run)
-			res = &RunResult{Class: v.Class, Locator: v.Locator, Detail: v.Detail}
 		}
-		if res.Class != v.Class || (stackClass(v.Class) && res.Locator != v.Locator) {
-			if len(v.Tape) == 0 {
-				infraFail("violation in run %d (%s) has no tape", v.Run, v.Class)
+		// confirmation in a fresh process with the full watchdog
+		res := runTape(min, spec.WatchdogMs("thorough"))
+		f, ok := pick(res, v.Class, locator)
+		if !ok {
+			res = runTape(v.Tape, spec.WatchdogMs("thorough"))
+			min, locator = v.Tape, v.Locator
+			if f, ok = pick(res, v.Class, locator); !ok {
+				infraFail("determinism failure: run %d reported %s/%s but its tape does not reproduce that in a fresh process (got %q/%q)", v.Run, v.Class, v.Locator, res.Class, res.Locator)
 			}
-			// minimised tape does not reproduce in a fresh process: try the original tape
-			res2 := runTape(v.Tape, spec.WatchdogMs("thorough"))
-			if res2.Class != v.Class {
-				infraFail("determinism failure: run %d reported %s/%s but its tape replays as %q/%q in a fresh process", v.Run, v.Class, v.Locator, res2.Class, res2.Locator)
-			}
-			min, res = v.Tape, res2
 		}
-		path := writeReplay(v, min, res, tried)
-		key := res.Class + "|" + res.Locator
+		res.Class, res.Locator, res.Detail = f.Class, f.Locator, f.Detail
+		kn := matchKnown(ks, f.Class, f.Locator)
+		path := ""
+		if kn == nil {
+			path = writeReplay(v, min, res, tried)
+		}
+		key := f.Class + "|" + f.Locator
 		if finals[key] == nil {
-			finals[key] = &final{class: res.Class, locator: res.Locator, detail: res.Detail, path: path, known: matchKnown(ks, res.Class, res.Locator)}
+			finals[key] = &final{class: f.Class, locator: f.Locator, detail: f.Detail, path: path, known: kn}
 			finalOrder = append(finalOrder, key)
 		}
 		finals[key].count += len(vs)
